@@ -150,6 +150,62 @@ func (e *Engine) model(st *State, g *G, fr *Frame, f *ssa.Function, args []Value
 			}
 		}
 		return SliceV{isNil: true}, true, ""
+	case pkg == "errors" && (name == "As" || name == "Is" || name == "Unwrap"):
+		cur, ok := args[0].(IfaceV)
+		if !ok {
+			return nil, true, "errors." + name + " on opaque error"
+		}
+		switch name {
+		case "Unwrap":
+			if eo, isE := cur.v.(*ErrObj); isE && eo.wrapped != nil {
+				return eo.wrapped, true, ""
+			}
+			return IfaceV{}, true, ""
+		case "Is":
+			tgt, _ := args[1].(IfaceV)
+			for cur.t != nil {
+				if tgt.t != nil && types.Identical(cur.t, tgt.t) && e.concreteEq(cur.v, tgt.v) {
+					return B(true), true, ""
+				}
+				eo, isE := cur.v.(*ErrObj)
+				if !isE || eo.wrapped == nil {
+					break
+				}
+				cur, _ = eo.wrapped.(IfaceV)
+			}
+			return B(false), true, ""
+		}
+		tgt, ok := args[1].(IfaceV)
+		if !ok || tgt.t == nil {
+			return nil, true, "errors.As with bad target"
+		}
+		pt, isPtr := tgt.t.Underlying().(*types.Pointer)
+		tp, isP := tgt.v.(Ptr)
+		if !isPtr || !isP || tp.obj == 0 {
+			return nil, true, "errors.As target is not a non-nil pointer"
+		}
+		want := pt.Elem()
+		for cur.t != nil {
+			match := types.Identical(cur.t, want)
+			if !match && types.IsInterface(want) {
+				match = types.Implements(cur.t, want.Underlying().(*types.Interface))
+			}
+			if match {
+				if types.IsInterface(want) {
+					st.store(tp, cur)
+				} else {
+					st.store(tp, cur.v)
+				}
+				st.writes++
+				return B(true), true, ""
+			}
+			eo, isE := cur.v.(*ErrObj)
+			if !isE || eo.wrapped == nil {
+				break
+			}
+			cur, _ = eo.wrapped.(IfaceV)
+		}
+		return B(false), true, ""
 	case pkg == "errors" && name == "New":
 		return IfaceV{e.errType, &ErrObj{msg: "errors.New"}}, true, ""
 	case full == "github.com/bio-routing/bio-rd/net.BytesInAddr":
